@@ -141,6 +141,36 @@ def r2_connect_packets(ctx, fam):
     if not n:
         ctx.bad(construct, 'no-connect', 'no CONNECT packet is sent', where(f))
     g = m.method(C, 'connect')
+    # the default namespace list (namespaces=None) is drawn from two
+    # registries that may both name a namespace: it has to be built through a
+    # duplicate-free construction, otherwise that namespace gets two CONNECT
+    # packets (two sessions on the server, one known to the client)
+    from ..sym import with_new_helpers
+    for h in with_new_helpers(m, g):
+        for node in walk_own(h.node):
+            if not isinstance(node, (ast.Assign, ast.Return)) or \
+                    node.value is None:
+                continue
+            v = node.value
+            t = U(v)
+            if 'self.handlers' in t and 'self.namespace_handlers' in t:
+                dedup = any(
+                    (isinstance(x, ast.Call) and (
+                        U(x.func) in ('set', 'frozenset', 'dict.fromkeys') or
+                        (isinstance(x.func, ast.Attribute) and
+                         x.func.attr in ('union', 'fromkeys')))) or
+                    isinstance(x, (ast.SetComp, ast.DictComp, ast.Set)) or
+                    (isinstance(x, ast.BinOp) and
+                     isinstance(x.op, ast.BitOr))
+                    for x in ast.walk(v))
+                ctx.check(dedup, C + '.' + h.name, 'the default namespace '
+                          'list is the duplicate-free union of the two '
+                          'handler registries', key='default-namespaces-set',
+                          reason='the namespaces to connect are collected '
+                          'from handlers and namespace_handlers as %s: a '
+                          'namespace served by both a function handler and a '
+                          'class-based namespace is requested twice'
+                          % t[:90], where=where(h, node))
     run = run_function(g, m, max_iter=1)
     for p in run.paths:
         ec = [e for e in p.calls('connect') if e.recv() == 'self.eio']
